@@ -5,6 +5,8 @@ import (
 	"syscall"
 	"time"
 
+	"golang.org/x/sys/unix"
+
 	vk "github.com/panjf2000/gnet/v2/internal/vk"
 )
 
@@ -113,4 +115,111 @@ func VH_C07_LoopEnrollErrorPaths() {
 		}
 	}
 	vReach("C07.loopenroll.end")
+}
+
+// ---------------------------------------------------------------------------------------
+// The successful hand-off (C04 / C07 / C17 / C19): a user TCP connection is enrolled (Client.EnrollContext,
+// EventLoop.Enroll) or dialled and registered (EventLoop.Register). vUserTCP stands in for *net.TCPConn in the
+// protocol switch; the loop goroutine is played by vAwaitOpened, which runs the loop's queued tasks.
+// ---------------------------------------------------------------------------------------
+
+type vUserTCP struct {
+	vUserConn
+	la, ra net.Addr
+}
+
+func (c *vUserTCP) LocalAddr() net.Addr  { return c.la }
+func (c *vUserTCP) RemoteAddr() net.Addr { return c.ra }
+
+var (
+	vEnrollSA   unix.Sockaddr
+	vDialResult *vUserTCP
+	vDialCalls  int
+)
+
+// resolving the textual form of the connection's own peer address succeeds (pkg/socket is C17's unit-level subject)
+func vGetTCPSockAddr(network, addr string) (unix.Sockaddr, int, *net.TCPAddr, bool, error) {
+	return vEnrollSA, unix.AF_INET, nil, false, nil
+}
+
+// net.Dial: the connection the kernel established; its RemoteAddr is the peer actually reached, which need not be the
+// textual dial target (unspecified IP, host name)
+func vDial(network, address string) (net.Conn, error) {
+	vDialCalls++
+	return vDialResult, nil
+}
+
+func vAwaitOpened(el *eventloop, ch chan struct{}) {
+	for i := 0; i < 4; i++ {
+		select {
+		case <-ch:
+			return
+		default:
+		}
+		if ran, _ := el.poller.VRunOne(); !ran {
+			break
+		}
+	}
+	<-ch
+}
+
+//verif: mode=int unwind=8
+func VH_C07_EnrollHandOff() {
+	w := vNewWorld(vNondetBool("et"), 1<<20)
+	const userFD = 9
+	vk.S[userFD] = vk.Sock{Owner: vk.User, Stream: true}
+	ipb := vNondetBytes("peer.ip", 4)
+	port := vNondetInt("peer.port")
+	vAssume(0 < port && port < 65536)
+	k := vPick("k", 4)
+	peer := &net.TCPAddr{IP: net.IP{ipb[0], ipb[1], ipb[2], ipb[3]}, Port: port}
+	local := &net.TCPAddr{IP: net.IP{10, 0, 0, 9}, Port: 51000}
+	s4 := &unix.SockaddrInet4{Port: port}
+	copy(s4.Addr[:], ipb)
+	vEnrollSA = s4
+	uc := &vUserTCP{vUserConn: vUserConn{fd: userFD}, la: local, ra: peer}
+	vDialResult, vDialCalls = uc, 0
+	// the address the caller passes to Register: the dial target, e.g. an unspecified IP with the port
+	target := &net.TCPAddr{Port: port}
+	var gc Conn
+	var err error
+	how := vPick("api", 3)
+	switch how {
+	case 0: // Client.EnrollContext
+		cli := &Client{opts: w.eng.opts, eng: w.eng}
+		gc, err = cli.EnrollContext(uc, nil)
+	case 1: // EventLoop.Enroll
+		ch, e := w.el.Enroll(vNoCtx{}, uc)
+		vAssert("C19.handoff.accepted", e == nil && ch != nil)
+		res, ok := <-ch
+		_, more := <-ch
+		vAssert("C19.handoff.exactly_one_result", ok && !more)
+		gc, err = res.Conn, res.Err
+	case 2: // EventLoop.Register: dials the target itself
+		ch, e := w.el.Register(vNoCtx{}, target)
+		vAssert("C19.handoff.accepted", e == nil && ch != nil)
+		res, ok := <-ch
+		_, more := <-ch
+		vAssert("C19.handoff.exactly_one_result", ok && !more && vDialCalls == 1)
+		gc, err = res.Conn, res.Err
+	}
+	vAssert("C19.handoff.usable_connection", err == nil && gc != nil)
+	c := gc.(*conn)
+	g := w.h.g(c)
+	vAssert("C04.handoff.opened_once_on_the_loop", c.opened && g.opens == 1 && g.closes == 0 && g.traffics == 0 && c.loop == w.el && w.el.connections.getConn(c.fd) == c && w.el.countConn() == 1)
+	vAssert("C07.handoff.descriptors", c.fd != userFD && vk.S[c.fd].Owner == vk.Framework && vk.S[c.fd].Registered && vk.S[c.fd].Closes == 0 &&
+		vk.S[userFD].Owner == vk.User && vk.S[userFD].Closes == 0 && uc.closed == 1)
+	ra, ok1 := c.RemoteAddr().(*net.TCPAddr)
+	la, ok2 := c.LocalAddr().(*net.TCPAddr)
+	vAssert("C17.handoff.remote_is_the_peer_actually_reached", ok1 && ra.Port == port && len(ra.IP) == 4 && ra.IP[k] == ipb[k])
+	vAssert("C17.handoff.local_is_the_sockets_local_address", ok2 && la.Port == 51000 && len(la.IP) == 4 && la.IP[3] == 9)
+	// the caller re-uses its address value for the next back-end: connections registered earlier are not affected
+	target.Port = 1
+	target.IP = net.IP{1, 1, 1, 1}
+	ra2, _ := c.RemoteAddr().(*net.TCPAddr)
+	vAssert("C17.handoff.remote_unaffected_by_the_callers_later_use_of_its_address_value", ra2 != nil && ra2.Port == port && ra2.IP[k] == ipb[k])
+	// and the connection is closed like any other one
+	_ = w.el.close(c, nil)
+	vAssert("C04.handoff.closed_once", g.closes == 1 && w.vClosedOK(c, c.fd) && w.el.countConn() == 0)
+	vReach("C07.handoff.end")
 }
